@@ -43,6 +43,12 @@ CLAIMED['C08'] = dict(tech='estimate-direction analysis: rounding-direction and 
          'One recorded known finding (generic kernel uses +=).',
     ref='DESIGN.md §4 C08')
 
+CLAIMED['C18'] = dict(tech='check-before-use dataflow on every __getitem__, sibling deviance on negative-index normalisation, linear-form pairing of exported extents and strides, format/itemsize/type table',
+    text='Static: for each of the 5 __getitem__ the accessor operand must be the variable that passed 0 <= i < len with len the __len__ quantity and negative indices normalised; '
+         'each 2-D export pairs extent columns() with stride size_of(T) and extent rows() with stride()*size_of(T); format, itemsize and pointer element type agree for the 5 buffer exports; '
+         'null-view and writable-request refusals dominate every write to the view.',
+    ref='DESIGN.md §4 C18')
+
 NA = {
     'C11': 'numeric agreement of a tabulated distribution with the exact tail probability: quantifies over run-time floating-point values; no sound static argument in reach (DESIGN.md §6)',
     'C12': 'bounds computed probability ranges by exact tail probabilities at a granularity: run-time numerics, no structural necessary condition (DESIGN.md §6)',
